@@ -151,12 +151,11 @@ Definition parse_case (l : list tok) : option case :=
   | _ => None
   end.
 
-(* "<case> || <trace>" *)
-Definition split_input (l : list tok) : list tok * list tok :=
-  match split_toks "||" l with
-  | [c] => (c, [])
-  | c :: t :: _ => (c, t)
+(* "<case> || <trace>": split at the first "||" (without reversing the long trace part) *)
+Fixpoint split_input (l : list tok) : list tok * list tok :=
+  match l with
   | [] => ([], [])
+  | t :: r => if is_tag "||" t then ([], r) else let (a, b) := split_input r in (t :: a, b)
   end.
 
 (* ------------------------------------------------------------------------------------------ printing ops (for REJECT lines) *)
@@ -356,10 +355,17 @@ Definition parse_ssummary (l : list tok) : option ssummary :=
 
 Definition events_of (tr : list (option event)) : list event := flat_map (fun o => match o with Some e => [e] | None => [] end) tr.
 
+(* CRASH <code> [; WHY]: 97 = the shim gave up (STEPLIMIT: the run does not end under the fair continuation; DEADLOCK),
+   98 / 99 = UBSan / ASan+LeakSanitizer report in the child (out-of-bounds, use after free, double free, leak),
+   anything else = the child died (signal) *)
 Definition crash_tag (obs : list tok) (pre : string) : list tok :=
   if existsb (is_tag "STEPLIMIT") obs then fail (String.append pre ":steplimit")
   else if existsb (is_tag "DEADLOCK") obs then fail (String.append pre ":deadlock")
-  else fail (String.append pre ":crash").
+  else match obs with
+       | _ :: TZ 98%Z :: _ => fail "memory_safety:ubsan"
+       | _ :: TZ 99%Z :: _ => fail "memory_safety:asan_or_leak"
+       | _ => fail (String.append pre ":crash")
+       end.
 
 Definition run_spec (l : list tok) (obs : list tok) : list tok :=
   let (c, t) := split_input l in
